@@ -8,10 +8,14 @@
 package results
 
 import (
+	"crypto/sha256"
+	"encoding/binary"
 	"fmt"
 	"net/netip"
 	"sort"
 	"time"
+
+	"verifharness/internal/hx"
 
 	gpresults "github.com/els0r/goProbe/v4/pkg/results"
 	"github.com/els0r/goProbe/v4/pkg/types"
@@ -224,4 +228,12 @@ func ModelRows(ps []PRow) []MRow {
 		out = append(out, p.ToModel())
 	}
 	return out
+}
+
+// seedRNG derives a generator from (seed, purpose).  hx.RNG walks one fixed orbit with a constant
+// step, so neighbouring seeds would replay the same values shifted by a few draws; hashing the
+// seed puts every (seed, purpose) at an unrelated position.
+func seedRNG(seed uint64, purpose string) *hx.RNG {
+	h := sha256.Sum256([]byte(fmt.Sprintf("%d/%s", seed, purpose)))
+	return hx.NewRNG(binary.LittleEndian.Uint64(h[:8]))
 }
